@@ -168,7 +168,7 @@ def run(ctx):
     cases.append(("witness:parsefsdir-no-package", [{"name": "a.txt", "src": "x"}], "parsefsdir", "det"))
     for cid, files in bases:
         cases.append((cid, files, "", "none"))
-    nmut = ctx.n(1300, 120000)
+    nmut = ctx.n(1300, 40000)
     for i in range(nmut):
         cid, files = bases[ctx.rng.below(len(bases))]
         files = [dict(f) for f in files]
